@@ -323,6 +323,11 @@ def run_chain(c):
         out['canon_eq'] = bool(a.canonical_units == b.canonical_units)
     except Exception:
         out['canon_eq'] = None
+    try:
+        from lcapy.units import units as _lu
+        out['ratio_one'] = bool(_lu.simplify_units(a.units / b.units) == 1)
+    except Exception:
+        out['ratio_one'] = None
     for op in c['ops']:
         out[op] = attempt(lambda: OPS[op](build(c['x']), build(c['y'])))
     return out
